@@ -432,7 +432,7 @@ def run(ck, F):
                                      f"{fnshort}: `{og.nf_str(nf)[:70]}` is written inside a block comment: `*/` in the schema text ends it", fn=fnshort)
                     else:
                         ck.undecided("R1", f"context:{key}", ev.site, f"hole in unclassified context {ctx}")
-    ck.floor("R1", "tainted holes classified", n_holes, 40)
+    ck.floor("R1", "tainted holes classified", n_holes, 20)
     # ---- R4: the guards the identifier holes rely on establish the lexical definition of an identifier
     _guard_bodies(ck, F, used_guards)
 
